@@ -44,6 +44,41 @@ func runC19(c *an.Ctx) {
 		return
 	}
 
+	// --- C19.b (public entry): Head() hands out only adopted heads
+	if headFn := p.Method("sync", "Syncer", "Head"); c.Need(headFn, "C19.b", "sync.(*Syncer).Head") {
+		ht, hf := c.T(headFn), c.F(headFn)
+		localHead := p.Method("sync", "Syncer", "localHead")
+		ncs := callsTo(headFn, netHead)
+		if c.Check(len(ncs) == 1 && localHead != nil, "C19.b", "head-asks-networkHead", "Syncer.Head obtains the head through networkHead (and re-reads the adopted head through localHead)", headFn, nil, "", nil) {
+			nc := ncs[0]
+			nRet := 0
+			for _, r := range hf.Returns() {
+				if ht.ErrShape(errResult(r)) != "nil" && !isCallResult(ht, errResult(r), localHead, 1) {
+					continue
+				}
+				nRet++
+				v := r.Results[0]
+				fs := hf.AtRefined(r.Block())
+				switch {
+				case isCallResult(ht, v, localHead, 0) && isCallResult(ht, errResult(r), localHead, 1):
+					c.Ok("C19.b", "head-returns-adopted", "after an update Head() returns the head that was actually adopted (re-read through localHead), not the candidate", headFn, r, "returns localHead()", fs)
+				case ht.Of(v) == ht.Of(nc)+"#0" && fs.Has(an.NotB(ht.Of(nc)+"#1")) && fs.Has(an.EQ(ht.Of(nc)+"#2", "nil")):
+					c.Ok("C19.b", "head-returns-adopted", "without an update Head() returns the unchanged subjective head", headFn, r, "returns networkHead() (not updated)", fs)
+				default:
+					c.Fail("C19.b", "head-returns-adopted", "Head() returns with a nil error either the unchanged subjective head or the head re-read after adoption, never the candidate itself", headFn, r, "returns "+an.Stable(ht.Of(v)), fs)
+				}
+			}
+			c.Min("C19.b", "successful returns of Syncer.Head", nRet, 2)
+			// the candidate is offered for adoption before the re-read
+			for _, lc := range callsTo(headFn, localHead) {
+				c.Check((an.Flow{Fn: headFn}).MustPrecede(func(in ssa.Instruction) bool {
+					call, isCall := in.(*ssa.Call)
+					return isCall && an.StaticCallee(&call.Call) == incoming && ht.Of(call.Call.Args[2]) == ht.Of(nc)+"#0"
+				}, lc), "C19.b", "adoption-before-reread", "the updated head is handed to incomingNetworkHead (verification + adoption) before the subjective head is re-read", headFn, lc, "", nil)
+			}
+		}
+	}
+
 	// --- C19.a expiry gate
 	{
 		t, ff := c.T(subj), c.F(subj)
